@@ -332,10 +332,21 @@ func c17StructCase(res *core.Result, rng *rand.Rand, t reflect.Type, gidx []int,
 	default:
 		// nested under exist / required fields of an outer struct, which has a group of its own
 		carrier = "nested"
-		outer := reflect.StructOf([]reflect.StructField{
+		// the nested object comes first in one case out of three (it then starts at the parent's own
+		// address); the parent's group has the same rule text as a group the nested type may have
+		ofs := []reflect.StructField{
 			{Name: "A", Type: gen.TString, Tag: `valid:"either=1"`},
 			{Name: "In", Type: t, Tag: `valid:"exist"`},
 			{Name: "B", Type: gen.TString, Tag: `valid:"either=1"`},
+		}
+		iA, iIn := 0, 1
+		if rng.Intn(3) == 0 {
+			ofs[0], ofs[1] = ofs[1], ofs[0]
+			iA, iIn = 1, 0
+			res.Count("nested_object_is_first_field")
+		}
+		outer := reflect.StructOf([]reflect.StructField{
+			ofs[0], ofs[1], ofs[2],
 			{Name: "InP", Type: reflect.PointerTo(t), Tag: `valid:"required|m_inp"`},
 			{Name: "L", Type: reflect.SliceOf(t), Tag: `valid:"exist"`},
 			{Name: "Arr", Type: reflect.ArrayOf(2, reflect.PointerTo(t)), Tag: `valid:"exist"`},
@@ -343,11 +354,11 @@ func c17StructCase(res *core.Result, rng *rand.Rand, t reflect.Type, gidx []int,
 		})
 		o := reflect.New(outer).Elem()
 		if rng.Intn(2) == 0 {
-			o.Field(0).SetString("a")
+			o.Field(iA).SetString("a")
 		}
 		v, p := mk()
 		add(p)
-		o.Field(1).Set(v)
+		o.Field(iIn).Set(v)
 		if rng.Intn(4) != 0 {
 			v, p := mk()
 			add(p)
@@ -514,7 +525,12 @@ func c17FlatCase(res *core.Result, rng *rand.Rand, idx int) {
 		q := []string{}
 		entries := []ref.FlatEntry{}
 		for _, k := range keys {
-			q = append(q, url.QueryEscape(k)+"="+url.QueryEscape(vals[k]))
+			if vals[k] == "" && rng.Intn(3) == 0 {
+				q = append(q, url.QueryEscape(k)) // an empty member written without '='
+				res.Count("url_bare_member_keys")
+			} else {
+				q = append(q, url.QueryEscape(k)+"="+url.QueryEscape(vals[k]))
+			}
 			entries = append(entries, ref.FlatEntry{Key: k, Val: reflect.ValueOf(vals[k])})
 		}
 		if rng.Intn(4) == 0 {
